@@ -69,6 +69,9 @@ CHECKS = {
  "C18": ("enumerator", "exhaustive enumeration of descriptors (7 x 256 bands x 256 Latin-1 attributes) and of all recognised triples against a pinned standard table, wire observation through one-cell MSM1 messages",
          "Exhaustive over the Latin-1 descriptor space and over all triples of recognised descriptors; other characters and mixed triples sampled.",
          "signal tables typed from RTCM 10403.3 in the harness", "§3 C18"),
+ "C19": ("configuration enumerator", "enumeration of build configurations (every single feature, empty, all_msgs without std, serde variants) with a build oracle and a differential decode oracle against the full build on generated frames",
+         "Exhaustive over the single-feature configurations for the build half (cargo check without default features => #![no_std]) and for the behavioural half (driver linked against the single-feature build decodes a generated frame file; own type identical to the full build, everything else MsgNotSupported).",
+         "no bare-metal target installed: no_std is checked for the host triple; dependencies pinned by /repo/Cargo.lock", "§3 C19"),
 }
 PENDING = {}
 def load_pending():
@@ -86,6 +89,7 @@ man = {
    "add_only": True,
  },
  "engines": [
+   {"name": "featdrv", "path": "featdrv", "serves_properties": ["C19"], "kind_free_text": "per-feature decode driver crate built by the C19 check with `--features rtcm-rs/msgNNNN` (rtcm-rs without default features)"},
    {"name": "vcheck", "path": "harness", "serves_properties": sorted(CHECKS.keys()),
     "kind_free_text": "Rust harness (path dependency on /repo): proptest 1.11 used as a library (sharded runners, fixed seeds, shrinking), exhaustive/seeded enumerators on rayon, independent reference models (CRC-24Q, bit reader/writer, frame predicate, stream scanner, serde value tree)"},
  ],
